@@ -314,6 +314,8 @@ class ControlledGate(ComposedGate):
         See :class:`~bqskit.ir.gate.Gate` for more info.
         """
         grads = self.gate.get_grad(params)
+        if len(grads) == 0:
+            return np.zeros((0, self.dim, self.dim), dtype=np.complex128)
         return np.kron(self.ctrl, grads).astype(np.complex128)
 
     def get_unitary_and_grad(
@@ -327,7 +329,10 @@ class ControlledGate(ComposedGate):
         """
         U, grads = self.gate.get_unitary_and_grad(params)
         ctrl_U = np.kron(self.ctrl, U) + self.ihalf
-        ctl_grads = np.kron(self.ctrl, grads).astype(np.complex128)
+        if len(grads) == 0:
+            ctl_grads = np.zeros((0, self.dim, self.dim), dtype=np.complex128)
+        else:
+            ctl_grads = np.kron(self.ctrl, grads).astype(np.complex128)
         return UnitaryMatrix(ctrl_U, self.radixes), ctl_grads
 
     def __eq__(self, other: object) -> bool:
